@@ -74,7 +74,9 @@ Fixpoint zip_app {A} (a b : list (list A)) : list (list A) :=
    sub-push i of HTTP handler h (controller/builder.go doPush) *)
 Inductive pid := PEnv (n : N) | PSub (h i : nat) (k : N).
 
-Record portion := { p_cols : block; p_res : list (pid * req) }.        (* requestPortion *)
+(* requestPortion, plus whether fetchLoopIteration has reached client.Do with it: between swapBuffers and Do it
+   runs OnBeforeInsert() and builds the proto.Input, without the mutex -- Requests can be served in between *)
+Record portion := { p_cols : block; p_res : list (pid * req); p_sent : bool }.
 
 Record svc := {
   kd : kind;
@@ -101,12 +103,13 @@ Inductive sact :=
  | SPlan                                   (* insertCtx done: timer expiry or PlanFlush() *)
  | SDial (ok : bool)                       (* fetchLoopIteration: svc.client == nil -> V3Session() *)
  | SSwap                                   (* swapBuffers: one mutex hold *)
+ | SSend                                   (* OnBeforeInsert() done, input built: client.Do is called *)
  | SDoReturn (ok : bool)                   (* client.Do returned; releaseWaiting(err); drop the client on error *)
  | SPingFail                               (* watchdog ping failed: client closed and forgotten *)
  | SStop.                                  (* Stop(): ctx cancelled, Run returns, running = false *)
 
 (* what a step does to the outside: the block handed to client.Do, the return of Do, calls of Promise.Done *)
-Inductive sev := VSend (b : block) | VRet (ok : bool) | VDone (p : pid) (r : req) (ok : bool).
+Inductive sev := VSwap | VSend (b : block) | VRet (ok : bool) | VDone (p : pid) (r : req) (ok : bool).
 
 Definition set_planned (s : svc) (b : bool) : svc :=
   {| kd := kd s; grp := grp s; maxq := maxq s; cols := cols s; size := size s; results := results s; inflight := inflight s;
@@ -148,13 +151,23 @@ Definition sstep (s : svc) (a : sact) : option (svc * list sev) :=
       if loop_ready s && client s then
         if Z.eqb (size s) 0 then Some (set_planned s false, [])       (* size == 0: return nil, nil *)
         else Some ({| kd := kd s; grp := grp s; maxq := maxq s; cols := empty_cols (kd s); size := 0; results := [];
-                      inflight := Some {| p_cols := cols s; p_res := results s |};
-                      client := true; planned := false; running := running s |}, [VSend (cols s)])
+                      inflight := Some {| p_cols := cols s; p_res := results s; p_sent := false |};
+                      client := true; planned := false; running := running s |}, [VSwap])
       else None
+  | SSend =>
+      match inflight s with
+      | Some po =>
+          if p_sent po then None
+          else Some ({| kd := kd s; grp := grp s; maxq := maxq s; cols := cols s; size := size s; results := results s;
+                        inflight := Some {| p_cols := p_cols po; p_res := p_res po; p_sent := true |};
+                        client := client s; planned := planned s; running := running s |}, [VSend (p_cols po)])
+      | None => None
+      end
   | SDoReturn ok =>
       match inflight s with
       | None => None
       | Some po =>
+          if negb (p_sent po) then None else
           Some ({| kd := kd s; grp := grp s; maxq := maxq s; cols := cols s; size := size s; results := results s;
                    inflight := None; client := ok; planned := planned s; running := running s |},
                 VRet ok :: map (fun pr => VDone (fst pr) (snd pr) ok) (p_res po))
